@@ -113,6 +113,11 @@ type RunReq struct {
 	// SecondContext: the root of a copy of the module; a second context is created there BEFORE the
 	// reported one and executed (unrecorded) AFTER it has been created: two contexts alive at once.
 	SecondContext string `json:"second_context,omitempty"`
+	// KeepExecutor: the executor created for this request stays alive in the worker; ReuseExecutor: instead of
+	// loading again, call Execute on the executor kept by the previous request (same root, same process) - a
+	// tool that loads once and runs several passes, a watch loop. If there is none, load as usual.
+	KeepExecutor  bool `json:"keep_executor,omitempty"`
+	ReuseExecutor bool `json:"reuse_executor,omitempty"`
 	// RetrySameExecutor: if Execute fails, call Execute once more on the SAME executor (a caller's retry
 	// loop); the report then describes the second call, FirstExecErr holds the first error.
 	RetrySameExecutor bool `json:"retry_same_executor,omitempty"`
@@ -171,6 +176,8 @@ type RunResp struct {
 	FirstExecErr  string   `json:"first_exec_err,omitempty"`
 	FirstExecuted []string `json:"first_executed,omitempty"`
 	Panic         string   `json:"panic,omitempty"`
+	// ReusedExecutor: the request ran on an executor kept from an earlier request
+	ReusedExecutor bool `json:"reused_executor,omitempty"`
 	// Late: what gengo still did to the module (or which callbacks it still made) after Execute had returned
 	Late     []string                  `json:"late,omitempty"`
 	Events   []Event                   `json:"events,omitempty"`
